@@ -522,6 +522,10 @@ def run(ctx, res):
     # always run (regression of finding H3-C3, signature C12:shape:hld:single-column): values given as ONE 2-D column
     run_case(ctx, res, gen_case(rng, ["full", "lm"][int(rng.integers(2))], "P", menu[0][0], menu[0][1], "base", -1, (False,),
                                 True))
+    # always run (regression of finding H6-3, signatures C12:shape:time_derivative / C12:time_derivative): a time-aware
+    # predictor with several value columns - the time partial of EVERY column, not all partials of the last one
+    run_case(ctx, res, gen_case(rng, "full", "T", 2, 3, "base", 2, (False,), False))
+    run_case(ctx, res, gen_case(rng, "lm", "T", 2, 3, "base", 3, (False,), False))
     i = 0
     did_multi = False
     while True:
@@ -533,7 +537,7 @@ def run(ctx, res):
         ds, q = menu[(i // len(order) + i) % len(menu)] if quick else menu[int(rng.integers(len(menu)))]
         form = "base" if rng.random() < 0.55 else "composite"
         ycols = 1
-        if kind == "P" and fam != "lmchol" and (not did_multi or rng.random() < 0.25):
+        if kind in ("P", "T") and fam != "lmchol" and (not did_multi or rng.random() < 0.25):
             ycols = [2, 3, -1][int(rng.integers(3))] if did_multi else 2
         did_multi = did_multi or ycols != 1
         jit = (False, True) if (i % 4 == 0) else ((True,) if i % 4 == 2 else (False,))
